@@ -6,6 +6,7 @@ import (
 	"fmt"
 	"go/ast"
 	"go/types"
+	"regexp"
 	"sort"
 	"strings"
 )
@@ -185,7 +186,7 @@ func (c *RC) startExemption(cs *Site) bool {
 		switch x := st.(type) {
 		case *ast.AssignStmt:
 			if len(x.Lhs) == 1 && len(x.Rhs) == 1 {
-				if sel, ok := x.Lhs[0].(*ast.SelectorExpr); ok && sel.Sel.Name == "cache" {
+				if sel, ok := x.Lhs[0].(*ast.SelectorExpr); ok && (sel.Sel.Name == "cache" || fn.Pkg.TypesInfo.Selections[sel] != nil && c.Prog.fieldRole(fn.Pkg.TypesInfo.Selections[sel].Obj().(*types.Var), "") == "cache") {
 					if call, ok := x.Rhs[0].(*ast.CallExpr); ok && w.staticCallee(call) != nil && !sawInit {
 						sawCache = true
 						continue
@@ -200,6 +201,23 @@ func (c *RC) startExemption(cs *Site) bool {
 						sawInit = true
 						continue
 					}
+				}
+			}
+			return false
+		case *ast.IfStmt:
+			// an effect-free early exit between the initialiser and the call (`if !primary { return }`)
+			pureCond := true
+			ast.Inspect(x.Cond, func(n ast.Node) bool {
+				if call, ok := n.(*ast.CallExpr); ok {
+					if t := w.staticCallee(call); t == nil || !c.A.isPure(t) {
+						pureCond = false
+					}
+				}
+				return true
+			})
+			if x.Init == nil && x.Else == nil && pureCond && len(x.Body.List) == 1 {
+				if rs, ok := x.Body.List[0].(*ast.ReturnStmt); ok && len(rs.Results) == 0 {
+					continue
 				}
 			}
 			return false
@@ -434,6 +452,21 @@ func ruleStoreBeforeSend(c *RC) *RuleResult {
 	return r
 }
 
+// elemTable: t is the element of a ranged table — the range value, or the table indexed by its own range key — and
+// the table is returned (nil otherwise).
+func elemTable(t *Term) *Term {
+	if t == nil {
+		return nil
+	}
+	if t.K == KElem {
+		return t.Args[0]
+	}
+	if t.K == KIndex && len(t.Args) == 2 && t.Args[1].K == KLocal && strings.HasPrefix(t.Args[1].Name, "rangekey:") && strings.HasSuffix(t.Args[1].Name, ":"+t.Args[0].S) {
+		return t.Args[0]
+	}
+	return nil
+}
+
 // P-RETRANSMIT: recovery builder adds only stored elements
 func ruleRetransmit(c *RC) *RuleResult {
 	r := &RuleResult{Rule: "P-RETRANSMIT", Kind: "PROV", Doc: "the recovery builder adds only payloads loaded from the stored tables (no construction)"}
@@ -445,7 +478,7 @@ func ruleRetransmit(c *RC) *RuleResult {
 		r.Sites++
 		good := true
 		for _, sn := range s.Snaps {
-			if len(sn.Args) != 1 || sn.Args[0].K != KElem {
+			if len(sn.Args) != 1 || elemTable(sn.Args[0]) == nil {
 				good = false
 			}
 		}
@@ -562,27 +595,30 @@ func ruleTip(c *RC) *RuleResult {
 	got := map[string]string{}
 	info := c.A.epochWriter.Pkg.TypesInfo
 	for _, cf := range c.Prog.dbftFuncs() {
-	if !c.inEpoch(cf) {
-		continue
-	}
-	ast.Inspect(cf.Decl.Body, func(n ast.Node) bool {
-		as, ok := n.(*ast.AssignStmt)
-		if !ok || len(as.Lhs) != len(as.Rhs) {
+		if !c.inEpoch(cf) {
+			continue
+		}
+		ast.Inspect(cf.Decl.Body, func(n ast.Node) bool {
+			as, ok := n.(*ast.AssignStmt)
+			if !ok || len(as.Lhs) != len(as.Rhs) {
+				return true
+			}
+			for i, l := range as.Lhs {
+				sel, ok := ast.Unparen(l).(*ast.SelectorExpr)
+				if !ok {
+					continue
+				}
+				loc := "ctx." + sel.Sel.Name
+				if s := info.Selections[sel]; s != nil && s.Kind() == types.FieldVal {
+					loc = "ctx." + c.Prog.fieldRole(s.Obj().(*types.Var), sel.Sel.Name)
+				}
+				if _, w := want[loc]; !w {
+					continue
+				}
+				got[loc] = srcDesc(info, as.Rhs[i])
+			}
 			return true
-		}
-		for i, l := range as.Lhs {
-			sel, ok := ast.Unparen(l).(*ast.SelectorExpr)
-			if !ok {
-				continue
-			}
-			loc := "ctx." + sel.Sel.Name
-			if _, w := want[loc]; !w {
-				continue
-			}
-			got[loc] = srcDesc(info, as.Rhs[i])
-		}
-		return true
-	})
+		})
 	}
 	for loc, w := range want {
 		r.Sites++
@@ -651,16 +687,28 @@ func ruleProposalFields(c *RC) *RuleResult {
 			case c.inBuilder(s.Fn) || c.inEpoch(s.Fn):
 				r.ok(fmt.Sprintf("%s written in %s", f.loc, s.Fn.Name))
 			default:
-				good := true
-				for _, sn := range s.Snaps {
-					if sn.Val == nil || sn.Val.K != KCall || sn.Val.Name != f.getter || !strings.Contains(sn.Val.S, "GetPrepareRequest(p:msg)") {
-						good = false
+				// judged on the site itself, and — when the assignment sits in a helper that is handed the request —
+				// on the walk of the function the helper serves
+				judge := func(t *Site) (bool, *Failure) {
+					for _, sn := range t.Snaps {
+						if sn.Val == nil || sn.Val.K != KCall || sn.Val.Name != f.getter || !strings.Contains(sn.Val.S, "GetPrepareRequest(p:msg)") {
+							return false, nil
+						}
+					}
+					d := c.A.newDemand(c.apiList)
+					return true, d.ProveAt(t, func(sn *Snap) *Formula { return c.fProposalAdmission() })
+				}
+				good, fl := judge(s)
+				if !good || fl != nil {
+					if s2 := c.clusterSite(s); s2 != nil {
+						if g2, f2 := judge(s2); g2 && f2 == nil {
+							good, fl = true, nil
+						}
 					}
 				}
 				// must be behind the proposal admission
 				if good {
-					d := c.A.newDemand(c.apiList)
-					if fl := d.ProveAt(s, func(sn *Snap) *Formula { return c.fProposalAdmission() }); fl != nil {
+					if fl != nil {
 						r.fail(s.Fn.Name+"/admission:"+f.loc, c.Prog.Pos(s.Node), fl.String())
 						continue
 					}
@@ -733,40 +781,26 @@ func (c *RC) inBuilder(fn *FuncInfo) bool {
 	return c.builderCl[fn]
 }
 
-func orderedFill(fn *FuncInfo) bool {
-	found := false
-	ast.Inspect(fn.Decl.Body, func(n ast.Node) bool {
-		rs, ok := n.(*ast.RangeStmt)
-		if !ok {
-			return true
+// orderedFill: somewhere in fn (read through locals and helpers) a list is filled in proposal order:
+// L[i] = Transactions[TransactionHashes[i]] for one and the same index i.
+var reOrderedL = regexp.MustCompile(`^[A-Za-z_][A-Za-z_0-9.]*\[([A-Za-z_][A-Za-z_0-9]*)\]$`)
+
+func (c *RC) orderedFill(fn *FuncInfo) bool {
+	nf := c.collectNormAll(fn)
+	for _, as := range nf.assigns {
+		m := reOrderedL.FindStringSubmatch(as[0])
+		if m == nil {
+			continue
 		}
-		sel, ok := ast.Unparen(rs.X).(*ast.SelectorExpr)
-		if !ok || sel.Sel.Name != "TransactionHashes" {
-			return true
+		i := m[1]
+		if j := strings.Index(as[1], ".Transactions["); j >= 0 {
+			inner := as[1][j+len(".Transactions["):]
+			if strings.HasSuffix(inner, ".TransactionHashes["+i+"]]") && strings.Count(inner, "[") == 1 {
+				return true
+			}
 		}
-		k, _ := rs.Key.(*ast.Ident)
-		v, _ := rs.Value.(*ast.Ident)
-		if k == nil || v == nil || len(rs.Body.List) != 1 {
-			return true
-		}
-		as, ok := rs.Body.List[0].(*ast.AssignStmt)
-		if !ok || len(as.Lhs) != 1 || len(as.Rhs) != 1 {
-			return true
-		}
-		li, ok := as.Lhs[0].(*ast.IndexExpr)
-		ri, ok2 := as.Rhs[0].(*ast.IndexExpr)
-		if !ok || !ok2 {
-			return true
-		}
-		lk, _ := li.Index.(*ast.Ident)
-		rk, _ := ri.Index.(*ast.Ident)
-		rsel, _ := ast.Unparen(ri.X).(*ast.SelectorExpr)
-		if lk != nil && rk != nil && rsel != nil && lk.Name == k.Name && rk.Name == v.Name && rsel.Sel.Name == "Transactions" {
-			found = true
-		}
-		return true
-	})
-	return found
+	}
+	return false
 }
 
 // verification routines: functions ranging a (pre)commit table, calling Verify and nil-ing entries.
@@ -818,7 +852,7 @@ func ruleRevalidate(c *RC) *RuleResult {
 			} else {
 				// the construct names roles, not the helper the call happens to sit in: the function the caller serves
 				// (a message handler is named by its kind) and the table the routine re-validates
-				r.fail(c.roleName(cs.Fn)+"->revalidate:"+table, c.Prog.Pos(cs.Node), cs.Fn.Name+" -> "+fn.Name+": "+ "the re-validation call cannot verify anything in this state (no header/pre-block can be built): "+f.String())
+				r.fail(c.roleName(cs.Fn)+"->revalidate:"+table, c.Prog.Pos(cs.Node), cs.Fn.Name+" -> "+fn.Name+": "+"the re-validation call cannot verify anything in this state (no header/pre-block can be built): "+f.String())
 			}
 		}
 	}
@@ -863,8 +897,20 @@ func ruleVerifyOnStore(c *RC) *RuleResult {
 		}
 		// calls that may reach the acceptance callbacks
 		n := 0
-		for _, s := range c.A.FnSites[h] {
-			if s.Kind != "call" || s.Target == nil || !c.reachesAccept(s.Target) {
+		// the handler with its single-caller helpers inline (the verification may sit in a helper)
+		rec := c.inlineSites(h, false)
+		var hs2 []*Site
+		inlined := map[*FuncInfo]bool{}
+		for _, g := range c.Prog.sortedFuncs() {
+			if len(rec.FnSites[g]) > 0 {
+				hs2 = append(hs2, rec.FnSites[g]...)
+				if g != h {
+					inlined[g] = true
+				}
+			}
+		}
+		for _, s := range hs2 {
+			if s.Kind != "call" || s.Target == nil || inlined[s.Target] || !c.reachesAccept(s.Target) {
 				continue
 			}
 			for _, sn := range s.Snaps {
@@ -940,7 +986,7 @@ func (c *RC) reachesAccept(fn *FuncInfo) bool {
 
 // orderedFillReach: the ordered fill loop is in fn or in a function it calls (extracted helper).
 func (c *RC) orderedFillReach(fn *FuncInfo, depth int) bool {
-	if orderedFill(fn) {
+	if c.orderedFill(fn) {
 		return true
 	}
 	if depth >= 2 {
